@@ -167,7 +167,7 @@ package node_info
 //@ define gpuMapsWF(ni *NodeInfo) bool = ni.UsedSharedGPUsMemory != nil && ni.ReleasingSharedGPUsMemory != nil && ni.AllocatedSharedGPUsMemory != nil && ni.ReleasingSharedGPUs != nil && ni.UsedSharedGPUsMemory != ni.ReleasingSharedGPUsMemory && ni.UsedSharedGPUsMemory != ni.AllocatedSharedGPUsMemory && ni.ReleasingSharedGPUsMemory != ni.AllocatedSharedGPUsMemory
 //@ define vecWF(ni *NodeInfo) bool = ni.VectorMap != nil && len(ni.IdleVector) == len(ni.VectorMap.resourceNames) && len(ni.UsedVector) == len(ni.VectorMap.resourceNames) && len(ni.ReleasingVector) == len(ni.VectorMap.resourceNames)
 //@ define resWF(ni *NodeInfo) bool = ni.Idle.scalarResources != nil && ni.Used.scalarResources != nil && ni.Releasing.scalarResources != nil && ni.Idle.scalarResources != ni.Used.scalarResources && ni.Idle.scalarResources != ni.Releasing.scalarResources && ni.Used.scalarResources != ni.Releasing.scalarResources && allocated(ni.Idle.scalarResources) && allocated(ni.Used.scalarResources) && allocated(ni.Releasing.scalarResources)
-//@ define nodeWF(ni *NodeInfo) bool = ni != nil && ni.Node != nil && ni.Idle != nil && ni.Releasing != nil && ni.Used != nil && ni.Allocatable != nil && ni.Idle != ni.Releasing && ni.Idle != ni.Used && ni.Used != ni.Releasing && resWF(ni) && gpuMapsWF(ni) && vecWF(ni)
+//@ define nodeWF(ni *NodeInfo) bool = ni != nil && ni.Node != nil && ni.Idle != nil && ni.Releasing != nil && ni.Used != nil && ni.Allocatable != nil && ni.Idle != ni.Releasing && ni.Idle != ni.Used && ni.Used != ni.Releasing && resWF(ni) && gpuMapsWF(ni) && vecWF(ni) && ni.MemoryOfEveryGpuOnNode > 0
 
 //@ func (*NodeInfo).getNumberOfUsedSharedGPUs
 //@   props C02 C14
@@ -262,6 +262,8 @@ package node_info
 //@     invariant forall m map[string]int64, k string :: m != ni.UsedSharedGPUsMemory && m != ni.ReleasingSharedGPUsMemory && m != ni.AllocatedSharedGPUsMemory ==> m[k] == old(m[k])
 //@     invariant forall m map[string]bool :: m != ni.ReleasingSharedGPUs ==> dom(m) == old(dom(m))
 //@     invariant forall m map[string]bool, k string :: m != ni.ReleasingSharedGPUs ==> m[k] == old(m[k])
+//@     invariant forall p *float64 :: !incells(p, ni.IdleVector) && !incells(p, ni.ReleasingVector) ==> *p == old(*p)
+//@   ensures [noop] task.ResourceReceivedType != "Fraction" ==> forall g string :: ni.UsedSharedGPUsMemory[g] == old(ni.UsedSharedGPUsMemory[g]) && ni.ReleasingSharedGPUsMemory[g] == old(ni.ReleasingSharedGPUsMemory[g]) && ni.AllocatedSharedGPUsMemory[g] == old(ni.AllocatedSharedGPUsMemory[g]) && markedReleasing(ni, g) == old(markedReleasing(ni, g)) && (g in ni.AllocatedSharedGPUsMemory <==> old(g in ni.AllocatedSharedGPUsMemory))
 //@   ensures [noopGpus] task.ResourceReceivedType != "Fraction" || len(task.GPUGroups) == 0 ==> ni.Idle.gpus == old(ni.Idle.gpus) && ni.Releasing.gpus == old(ni.Releasing.gpus)
 //@   ensures nodeWF(ni)
 //@ end
@@ -279,6 +281,8 @@ package node_info
 //@     invariant forall m map[string]int64, k string :: m != ni.UsedSharedGPUsMemory && m != ni.ReleasingSharedGPUsMemory && m != ni.AllocatedSharedGPUsMemory ==> m[k] == old(m[k])
 //@     invariant forall m map[string]bool :: m != ni.ReleasingSharedGPUs ==> dom(m) == old(dom(m))
 //@     invariant forall m map[string]bool, k string :: m != ni.ReleasingSharedGPUs ==> m[k] == old(m[k])
+//@     invariant forall p *float64 :: !incells(p, ni.IdleVector) && !incells(p, ni.ReleasingVector) ==> *p == old(*p)
+//@   ensures [noop] task.ResourceReceivedType != "Fraction" ==> forall g string :: ni.UsedSharedGPUsMemory[g] == old(ni.UsedSharedGPUsMemory[g]) && ni.ReleasingSharedGPUsMemory[g] == old(ni.ReleasingSharedGPUsMemory[g]) && ni.AllocatedSharedGPUsMemory[g] == old(ni.AllocatedSharedGPUsMemory[g]) && markedReleasing(ni, g) == old(markedReleasing(ni, g)) && (g in ni.AllocatedSharedGPUsMemory <==> old(g in ni.AllocatedSharedGPUsMemory))
 //@   ensures [noopGpus] task.ResourceReceivedType != "Fraction" || len(task.GPUGroups) == 0 ==> ni.Idle.gpus == old(ni.Idle.gpus) && ni.Releasing.gpus == old(ni.Releasing.gpus)
 //@   ensures nodeWF(ni)
 //@ end
@@ -420,4 +424,134 @@ package node_info
 //@   ensures [relGpus] task.ResourceReceivedType != "Fraction" ==> ni.Releasing.gpus == old(ni.Releasing.gpus) - relPart(task, nodeChargedGpus(task))
 //@   ensures [sharedUntouched] task.ResourceReceivedType != "Fraction" ==> forall g string :: ni.UsedSharedGPUsMemory[g] == old(ni.UsedSharedGPUsMemory[g]) && ni.ReleasingSharedGPUsMemory[g] == old(ni.ReleasingSharedGPUsMemory[g]) && ni.AllocatedSharedGPUsMemory[g] == old(ni.AllocatedSharedGPUsMemory[g]) && markedReleasing(ni, g) == old(markedReleasing(ni, g))
 //@   ensures nodeWF(ni)
+//@ end
+
+// ---- AddTask / RemoveTask / UpdateTask ------------------------------------------------------------------------
+// accepted resources of a pod that occupies the node: the request itself (cpu, memory, scalars), GPU part by kind
+//@ func (*NodeInfo).setAcceptedResources
+//@   props C01 C14 C02 C13
+//@   requires ni != nil && ni.MemoryOfEveryGpuOnNode > 0 && pi != nil && pi.ResReq != nil
+//@   modifies pi.AcceptedResource, pi.ResourceReceivedType
+//@   ensures [inactive] !pod_status.IsActiveUsedStatus(pi.Status) ==> pi.AcceptedResource == old(pi.AcceptedResource) && pi.ResourceReceivedType == old(pi.ResourceReceivedType)
+//@   ensures [fresh] pod_status.IsActiveUsedStatus(pi.Status) ==> fresh(pi.AcceptedResource) && (pi.ResReq.scalarResources != nil ==> fresh(pi.AcceptedResource.scalarResources))
+//@   ensures [base] pod_status.IsActiveUsedStatus(pi.Status) ==> pi.AcceptedResource.milliCpu == pi.ResReq.milliCpu && pi.AcceptedResource.memory == pi.ResReq.memory && (forall k v1.ResourceName :: pi.AcceptedResource.scalarResources[k] == pi.ResReq.scalarResources[k] && (k in pi.AcceptedResource.scalarResources <==> k in pi.ResReq.scalarResources))
+//@   ensures [kind] pod_status.IsActiveUsedStatus(pi.Status) ==> pi.ResourceReceivedType == ite(pi.ResourceRequestType == "MigInstance", "MigInstance", ite(pi.ResourceRequestType == "Fraction" || pi.ResourceRequestType == "GpuMemory", "Fraction", "Regular"))
+//@   ensures [fraction] pod_status.IsActiveUsedStatus(pi.Status) && (pi.ResourceRequestType == "Fraction" || pi.ResourceRequestType == "GpuMemory") ==> pi.AcceptedResource.count == pi.ResReq.count && pi.AcceptedResource.portion == gpuPortion(ni, pi.ResReq) && pi.AcceptedResource.gpuMemory == needMem(ni, pi.ResReq)
+//@   ensures [mig] pod_status.IsActiveUsedStatus(pi.Status) && pi.ResourceRequestType == "MigInstance" ==> pi.AcceptedResource.migResources == pi.ResReq.migResources && pi.AcceptedResource.count == 0 && pi.AcceptedResource.portion == 0.0
+//@ end
+
+// Storage accounting (CSI capacities) is outside C01/C02/C14 (DESIGN: storage-capacity checks are opaque).
+//@ func (*NodeInfo).addTaskStorage
+//@   props C01 C14 C13
+//@   trusted
+//@   note writes only StorageCapacityInfo.ProvisionedPVCs maps of the node's accessible capacities (storage accounting, outside the properties); modelled as no effect on any location the contracts mention
+//@   requires ni != nil && task != nil
+//@   pure
+//@ end
+//@ func (*NodeInfo).removeTaskStorage
+//@   props C01 C14 C13
+//@   trusted
+//@   note deletes only from StorageCapacityInfo.ProvisionedPVCs maps (storage accounting, outside the properties); modelled as no effect on any location the contracts mention
+//@   requires ni != nil && task != nil
+//@   pure
+//@ end
+
+// a task that can be handed to AddTask/RemoveTask/UpdateTask (code-derived nil-ness; PodInfo constructors establish it)
+//@ define taskWF(task *pod_info.PodInfo) bool = task != nil && task.Pod != nil && task.ResReq != nil && task.ResReq.scalarResources != nil && task.AcceptedResource != nil && task.AcceptedResource.scalarResources != nil
+// the maps of the task's request are not the node's own accounting maps
+//@ define notNodeMap(ni *NodeInfo, m map[v1.ResourceName]int64) bool = m != ni.Idle.scalarResources && m != ni.Used.scalarResources && m != ni.Releasing.scalarResources
+//@ define taskSeparate(ni *NodeInfo, task *pod_info.PodInfo) bool = notNodeMap(ni, task.ResReq.scalarResources) && notNodeMap(ni, task.ResReq.migResources) && notNodeMap(ni, task.AcceptedResource.scalarResources) && notNodeMap(ni, task.AcceptedResource.migResources)
+//@ define podsWF(ni *NodeInfo) bool = ni.PodInfos != nil && ni.LegacyMIGTasks != nil && ni.PodAffinityInfo != nil
+
+// C14: AddTask charges the pod (by its status, see addTaskResources) and records a copy under its key; it fails, leaving the
+// node accounting untouched, iff the key is already present (unless a shared-GPU pod is consolidated to another GPU).
+//@ func (*NodeInfo).addTask
+//@   props C01 C14 C02 C13
+//@   requires nodeWF(ni) && podsWF(ni) && taskWF(task) && taskSeparate(ni, task)
+//@   modifies task.AcceptedResource, task.ResourceReceivedType, ni.PodInfos[*], ni.LegacyMIGTasks[*], ni.Used.milliCpu, ni.Used.memory, ni.Used.gpus, ni.Used.scalarResources[*], ni.Idle.milliCpu, ni.Idle.memory, ni.Idle.gpus, ni.Idle.scalarResources[*], ni.Releasing.milliCpu, ni.Releasing.memory, ni.Releasing.gpus, ni.Releasing.scalarResources[*], ni.UsedVector[*], ni.IdleVector[*], ni.ReleasingVector[*], ni.UsedSharedGPUsMemory[*], ni.ReleasingSharedGPUsMemory[*], ni.AllocatedSharedGPUsMemory[*], ni.ReleasingSharedGPUs[*], sumIdleGPUs(ni), sumIdleGPUMem(ni), sumReleasingGPUs(ni), sumReleasingGPUMem(ni)
+//@   ensures [fails] (result != nil) == (old(pod_info.podKeyOf(task.Pod) in ni.PodInfos) && !(allowTaskToExistOnDifferentGPU && task.ResourceReceivedType == "Fraction"))
+//@   ensures [failsUntouched] result != nil ==> ni.Used.milliCpu == old(ni.Used.milliCpu) && ni.Used.memory == old(ni.Used.memory) && ni.Used.gpus == old(ni.Used.gpus) && ni.Idle.milliCpu == old(ni.Idle.milliCpu) && ni.Idle.memory == old(ni.Idle.memory) && ni.Idle.gpus == old(ni.Idle.gpus) && ni.Releasing.milliCpu == old(ni.Releasing.milliCpu) && ni.Releasing.memory == old(ni.Releasing.memory) && ni.Releasing.gpus == old(ni.Releasing.gpus)
+//@   ensures [failsUntouchedScalars] result != nil ==> forall k v1.ResourceName :: ni.Used.scalarResources[k] == old(ni.Used.scalarResources[k]) && ni.Idle.scalarResources[k] == old(ni.Idle.scalarResources[k]) && ni.Releasing.scalarResources[k] == old(ni.Releasing.scalarResources[k]) && (k in ni.Idle.scalarResources <==> old(k in ni.Idle.scalarResources))
+//@   ensures [recorded] result == nil ==> pod_info.podKeyOf(task.Pod) in ni.PodInfos && ni.PodInfos[pod_info.podKeyOf(task.Pod)] != nil && ni.PodInfos[pod_info.podKeyOf(task.Pod)] != task && ni.PodInfos[pod_info.podKeyOf(task.Pod)].Status == task.Status && ni.PodInfos[pod_info.podKeyOf(task.Pod)].Pod == task.Pod
+//@   ensures [otherPods] forall k common_info.PodID :: k != pod_info.podKeyOf(task.Pod) ==> ni.PodInfos[k] == old(ni.PodInfos[k]) && (k in ni.PodInfos <==> old(k in ni.PodInfos))
+//@   ensures [usedCpuMem] result == nil ==> ni.Used.milliCpu == old(ni.Used.milliCpu) + task.AcceptedResource.milliCpu && ni.Used.memory == old(ni.Used.memory) + task.AcceptedResource.memory
+//@   ensures [idleCpuMem] result == nil ==> ni.Idle.milliCpu == old(ni.Idle.milliCpu) - idlePart(task, task.AcceptedResource.milliCpu) && ni.Idle.memory == old(ni.Idle.memory) - idlePart(task, task.AcceptedResource.memory)
+//@   ensures [relCpuMem] result == nil ==> ni.Releasing.milliCpu == old(ni.Releasing.milliCpu) + relPart(task, task.AcceptedResource.milliCpu) && ni.Releasing.memory == old(ni.Releasing.memory) + relPart(task, task.AcceptedResource.memory)
+//@   ensures [usedGpus] result == nil ==> ni.Used.gpus == old(ni.Used.gpus) + nodeChargedGpus(task)
+//@   ensures [idleGpus] result == nil && task.ResourceReceivedType != "Fraction" ==> ni.Idle.gpus == old(ni.Idle.gpus) - idlePart(task, nodeChargedGpus(task))
+//@   ensures [relGpus] result == nil && task.ResourceReceivedType != "Fraction" ==> ni.Releasing.gpus == old(ni.Releasing.gpus) + relPart(task, nodeChargedGpus(task))
+//@   ensures [accepted] pod_status.IsActiveUsedStatus(task.Status) ==> task.AcceptedResource.milliCpu == task.ResReq.milliCpu && task.AcceptedResource.memory == task.ResReq.memory && (forall k v1.ResourceName :: task.AcceptedResource.scalarResources[k] == old(task.ResReq.scalarResources[k]))
+//@   ensures nodeWF(ni) && podsWF(ni) && taskWF(task)
+//@ end
+
+//@ func (*NodeInfo).AddTask
+//@   props C01 C14 C02 C13
+//@   requires nodeWF(ni) && podsWF(ni) && taskWF(task) && taskSeparate(ni, task)
+//@   modifies task.AcceptedResource, task.ResourceReceivedType, ni.PodInfos[*], ni.LegacyMIGTasks[*], ni.Used.milliCpu, ni.Used.memory, ni.Used.gpus, ni.Used.scalarResources[*], ni.Idle.milliCpu, ni.Idle.memory, ni.Idle.gpus, ni.Idle.scalarResources[*], ni.Releasing.milliCpu, ni.Releasing.memory, ni.Releasing.gpus, ni.Releasing.scalarResources[*], ni.UsedVector[*], ni.IdleVector[*], ni.ReleasingVector[*], ni.UsedSharedGPUsMemory[*], ni.ReleasingSharedGPUsMemory[*], ni.AllocatedSharedGPUsMemory[*], ni.ReleasingSharedGPUs[*], sumIdleGPUs(ni), sumIdleGPUMem(ni), sumReleasingGPUs(ni), sumReleasingGPUMem(ni)
+//@   ensures [fails] (result != nil) == old(pod_info.podKeyOf(task.Pod) in ni.PodInfos)
+//@   ensures [failsUntouched] result != nil ==> ni.Used.milliCpu == old(ni.Used.milliCpu) && ni.Used.memory == old(ni.Used.memory) && ni.Used.gpus == old(ni.Used.gpus) && ni.Idle.milliCpu == old(ni.Idle.milliCpu) && ni.Idle.memory == old(ni.Idle.memory) && ni.Idle.gpus == old(ni.Idle.gpus) && ni.Releasing.milliCpu == old(ni.Releasing.milliCpu) && ni.Releasing.memory == old(ni.Releasing.memory) && ni.Releasing.gpus == old(ni.Releasing.gpus)
+//@   ensures [failsUntouchedScalars] result != nil ==> forall k v1.ResourceName :: ni.Used.scalarResources[k] == old(ni.Used.scalarResources[k]) && ni.Idle.scalarResources[k] == old(ni.Idle.scalarResources[k]) && ni.Releasing.scalarResources[k] == old(ni.Releasing.scalarResources[k]) && (k in ni.Idle.scalarResources <==> old(k in ni.Idle.scalarResources))
+//@   ensures [recorded] result == nil ==> pod_info.podKeyOf(task.Pod) in ni.PodInfos && ni.PodInfos[pod_info.podKeyOf(task.Pod)] != nil && ni.PodInfos[pod_info.podKeyOf(task.Pod)] != task && ni.PodInfos[pod_info.podKeyOf(task.Pod)].Status == task.Status && ni.PodInfos[pod_info.podKeyOf(task.Pod)].Pod == task.Pod
+//@   ensures [otherPods] forall k common_info.PodID :: k != pod_info.podKeyOf(task.Pod) ==> ni.PodInfos[k] == old(ni.PodInfos[k]) && (k in ni.PodInfos <==> old(k in ni.PodInfos))
+//@   ensures [usedCpuMem] result == nil ==> ni.Used.milliCpu == old(ni.Used.milliCpu) + task.AcceptedResource.milliCpu && ni.Used.memory == old(ni.Used.memory) + task.AcceptedResource.memory
+//@   ensures [idleCpuMem] result == nil ==> ni.Idle.milliCpu == old(ni.Idle.milliCpu) - idlePart(task, task.AcceptedResource.milliCpu) && ni.Idle.memory == old(ni.Idle.memory) - idlePart(task, task.AcceptedResource.memory)
+//@   ensures [relCpuMem] result == nil ==> ni.Releasing.milliCpu == old(ni.Releasing.milliCpu) + relPart(task, task.AcceptedResource.milliCpu) && ni.Releasing.memory == old(ni.Releasing.memory) + relPart(task, task.AcceptedResource.memory)
+//@   ensures [usedGpus] result == nil ==> ni.Used.gpus == old(ni.Used.gpus) + nodeChargedGpus(task)
+//@   ensures [idleGpus] result == nil && task.ResourceReceivedType != "Fraction" ==> ni.Idle.gpus == old(ni.Idle.gpus) - idlePart(task, nodeChargedGpus(task))
+//@   ensures [relGpus] result == nil && task.ResourceReceivedType != "Fraction" ==> ni.Releasing.gpus == old(ni.Releasing.gpus) + relPart(task, nodeChargedGpus(task))
+//@   ensures [accepted] pod_status.IsActiveUsedStatus(task.Status) ==> task.AcceptedResource.milliCpu == task.ResReq.milliCpu && task.AcceptedResource.memory == task.ResReq.memory && (forall k v1.ResourceName :: task.AcceptedResource.scalarResources[k] == old(task.ResReq.scalarResources[k]))
+//@   ensures nodeWF(ni) && podsWF(ni) && taskWF(task)
+//@ end
+
+// same as AddTask, but a pod that received a shared GPU may already be on the node (it is re-recorded, not rejected)
+//@ func (*NodeInfo).ConsolidateSharedPodInfoToDifferentGPU
+//@   props C14 C02 C13
+//@   requires nodeWF(ni) && podsWF(ni) && taskWF(ti) && taskSeparate(ni, ti)
+//@   modifies ti.AcceptedResource, ti.ResourceReceivedType, ni.PodInfos[*], ni.LegacyMIGTasks[*], ni.Used.milliCpu, ni.Used.memory, ni.Used.gpus, ni.Used.scalarResources[*], ni.Idle.milliCpu, ni.Idle.memory, ni.Idle.gpus, ni.Idle.scalarResources[*], ni.Releasing.milliCpu, ni.Releasing.memory, ni.Releasing.gpus, ni.Releasing.scalarResources[*], ni.UsedVector[*], ni.IdleVector[*], ni.ReleasingVector[*], ni.UsedSharedGPUsMemory[*], ni.ReleasingSharedGPUsMemory[*], ni.AllocatedSharedGPUsMemory[*], ni.ReleasingSharedGPUs[*], sumIdleGPUs(ni), sumIdleGPUMem(ni), sumReleasingGPUs(ni), sumReleasingGPUMem(ni)
+//@   ensures [fails] (result != nil) == (old(pod_info.podKeyOf(ti.Pod) in ni.PodInfos) && ti.ResourceReceivedType != "Fraction")
+//@   ensures [usedCpuMem] result == nil ==> ni.Used.milliCpu == old(ni.Used.milliCpu) + ti.AcceptedResource.milliCpu && ni.Used.memory == old(ni.Used.memory) + ti.AcceptedResource.memory
+//@   ensures [usedGpus] result == nil ==> ni.Used.gpus == old(ni.Used.gpus) + nodeChargedGpus(ti)
+//@   ensures [otherPods] forall k common_info.PodID :: k != pod_info.podKeyOf(ti.Pod) ==> ni.PodInfos[k] == old(ni.PodInfos[k]) && (k in ni.PodInfos <==> old(k in ni.PodInfos))
+//@   ensures nodeWF(ni) && podsWF(ni) && taskWF(ti)
+//@ end
+
+// the copy of the pod recorded on the node under the pod's key
+//@ define storedTask(ni *NodeInfo, ti *pod_info.PodInfo) *pod_info.PodInfo = ni.PodInfos[pod_info.podKeyOf(ti.Pod)]
+//@ define storedOK(ni *NodeInfo, ti *pod_info.PodInfo) bool = pod_info.podKeyOf(ti.Pod) in ni.PodInfos ==> taskWF(storedTask(ni, ti)) && taskSeparate(ni, storedTask(ni, ti))
+
+// C14: RemoveTask un-charges the *recorded copy* of the pod (by the copy's status and accepted resources) and forgets it;
+// it fails, leaving the node untouched, iff the pod is not recorded.
+//@ func (*NodeInfo).RemoveTask
+//@   props C01 C14 C02 C13
+//@   requires nodeWF(ni) && podsWF(ni) && ti != nil && ti.Pod != nil && storedOK(ni, ti)
+//@   modifies ni.PodInfos[*], ni.Used.milliCpu, ni.Used.memory, ni.Used.gpus, ni.Used.scalarResources[*], ni.Idle.milliCpu, ni.Idle.memory, ni.Idle.gpus, ni.Idle.scalarResources[*], ni.Releasing.milliCpu, ni.Releasing.memory, ni.Releasing.gpus, ni.Releasing.scalarResources[*], ni.UsedVector[*], ni.IdleVector[*], ni.ReleasingVector[*], ni.UsedSharedGPUsMemory[*], ni.ReleasingSharedGPUsMemory[*], ni.AllocatedSharedGPUsMemory[*], ni.ReleasingSharedGPUs[*], sumIdleGPUs(ni), sumIdleGPUMem(ni), sumReleasingGPUs(ni), sumReleasingGPUMem(ni)
+//@   ensures [notFound] !old(pod_info.podKeyOf(ti.Pod) in ni.PodInfos) ==> result != nil && ni.Used.milliCpu == old(ni.Used.milliCpu) && ni.Used.memory == old(ni.Used.memory) && ni.Used.gpus == old(ni.Used.gpus) && ni.Idle.milliCpu == old(ni.Idle.milliCpu) && ni.Idle.memory == old(ni.Idle.memory) && ni.Idle.gpus == old(ni.Idle.gpus) && ni.Releasing.milliCpu == old(ni.Releasing.milliCpu) && ni.Releasing.memory == old(ni.Releasing.memory) && ni.Releasing.gpus == old(ni.Releasing.gpus)
+//@   ensures [forgotten] !(pod_info.podKeyOf(ti.Pod) in ni.PodInfos)
+//@   ensures [otherPods] forall k common_info.PodID :: k != pod_info.podKeyOf(ti.Pod) ==> ni.PodInfos[k] == old(ni.PodInfos[k]) && (k in ni.PodInfos <==> old(k in ni.PodInfos))
+//@   ensures [usedCpuMem] old(pod_info.podKeyOf(ti.Pod) in ni.PodInfos) ==> ni.Used.milliCpu == old(ni.Used.milliCpu) - old(storedTask(ni, ti)).AcceptedResource.milliCpu && ni.Used.memory == old(ni.Used.memory) - old(storedTask(ni, ti)).AcceptedResource.memory
+//@   ensures [idleCpuMem] old(pod_info.podKeyOf(ti.Pod) in ni.PodInfos) ==> ni.Idle.milliCpu == old(ni.Idle.milliCpu) + idlePart(old(storedTask(ni, ti)), old(storedTask(ni, ti)).AcceptedResource.milliCpu) && ni.Idle.memory == old(ni.Idle.memory) + idlePart(old(storedTask(ni, ti)), old(storedTask(ni, ti)).AcceptedResource.memory)
+//@   ensures [relCpuMem] old(pod_info.podKeyOf(ti.Pod) in ni.PodInfos) ==> ni.Releasing.milliCpu == old(ni.Releasing.milliCpu) - relPart(old(storedTask(ni, ti)), old(storedTask(ni, ti)).AcceptedResource.milliCpu) && ni.Releasing.memory == old(ni.Releasing.memory) - relPart(old(storedTask(ni, ti)), old(storedTask(ni, ti)).AcceptedResource.memory)
+//@   ensures [usedGpus] old(pod_info.podKeyOf(ti.Pod) in ni.PodInfos) ==> ni.Used.gpus == old(ni.Used.gpus) - nodeChargedGpus(old(storedTask(ni, ti)))
+//@   ensures [idleGpus] old(pod_info.podKeyOf(ti.Pod) in ni.PodInfos) && old(storedTask(ni, ti)).ResourceReceivedType != "Fraction" ==> ni.Idle.gpus == old(ni.Idle.gpus) + idlePart(old(storedTask(ni, ti)), nodeChargedGpus(old(storedTask(ni, ti))))
+//@   ensures [relGpus] old(pod_info.podKeyOf(ti.Pod) in ni.PodInfos) && old(storedTask(ni, ti)).ResourceReceivedType != "Fraction" ==> ni.Releasing.gpus == old(ni.Releasing.gpus) - relPart(old(storedTask(ni, ti)), nodeChargedGpus(old(storedTask(ni, ti))))
+//@   ensures nodeWF(ni) && podsWF(ni)
+//@ end
+
+// C14: UpdateTask = RemoveTask (recorded copy, old status) followed by AddTask (argument, new status): the net effect is the
+// difference of the two charges. Note (report): RemoveTask returns the pod-affinity error *after* un-charging, so a non-nil
+// result with the pod recorded before means the pod has been dropped from the accounting.
+//@ func (*NodeInfo).UpdateTask
+//@   props C01 C14 C02 C13
+//@   requires nodeWF(ni) && podsWF(ni) && taskWF(ti) && taskSeparate(ni, ti) && storedOK(ni, ti)
+//@   modifies ti.AcceptedResource, ti.ResourceReceivedType, ni.PodInfos[*], ni.LegacyMIGTasks[*], ni.Used.milliCpu, ni.Used.memory, ni.Used.gpus, ni.Used.scalarResources[*], ni.Idle.milliCpu, ni.Idle.memory, ni.Idle.gpus, ni.Idle.scalarResources[*], ni.Releasing.milliCpu, ni.Releasing.memory, ni.Releasing.gpus, ni.Releasing.scalarResources[*], ni.UsedVector[*], ni.IdleVector[*], ni.ReleasingVector[*], ni.UsedSharedGPUsMemory[*], ni.ReleasingSharedGPUsMemory[*], ni.AllocatedSharedGPUsMemory[*], ni.ReleasingSharedGPUs[*], sumIdleGPUs(ni), sumIdleGPUMem(ni), sumReleasingGPUs(ni), sumReleasingGPUMem(ni)
+//@   ensures [notFound] !old(pod_info.podKeyOf(ti.Pod) in ni.PodInfos) ==> result != nil && ni.Used.milliCpu == old(ni.Used.milliCpu) && ni.Used.memory == old(ni.Used.memory) && ni.Used.gpus == old(ni.Used.gpus) && ni.Idle.milliCpu == old(ni.Idle.milliCpu) && ni.Idle.memory == old(ni.Idle.memory) && ni.Idle.gpus == old(ni.Idle.gpus) && ni.Releasing.milliCpu == old(ni.Releasing.milliCpu) && ni.Releasing.memory == old(ni.Releasing.memory) && ni.Releasing.gpus == old(ni.Releasing.gpus)
+//@   ensures [otherPods] forall k common_info.PodID :: k != pod_info.podKeyOf(ti.Pod) ==> ni.PodInfos[k] == old(ni.PodInfos[k]) && (k in ni.PodInfos <==> old(k in ni.PodInfos))
+//@   ensures [recorded] result == nil ==> pod_info.podKeyOf(ti.Pod) in ni.PodInfos && ni.PodInfos[pod_info.podKeyOf(ti.Pod)] != nil && ni.PodInfos[pod_info.podKeyOf(ti.Pod)].Status == ti.Status
+//@   ensures [usedCpuMem] result == nil ==> ni.Used.milliCpu == old(ni.Used.milliCpu) - old(storedTask(ni, ti).AcceptedResource.milliCpu) + ti.AcceptedResource.milliCpu && ni.Used.memory == old(ni.Used.memory) - old(storedTask(ni, ti).AcceptedResource.memory) + ti.AcceptedResource.memory
+//@   ensures [idleCpu] result == nil ==> ni.Idle.milliCpu == old(ni.Idle.milliCpu) + old(idlePart(storedTask(ni, ti), storedTask(ni, ti).AcceptedResource.milliCpu)) - idlePart(ti, ti.AcceptedResource.milliCpu)
+//@   ensures [idleMem] result == nil ==> ni.Idle.memory == old(ni.Idle.memory) + old(idlePart(storedTask(ni, ti), storedTask(ni, ti).AcceptedResource.memory)) - idlePart(ti, ti.AcceptedResource.memory)
+//@   ensures [relCpu] result == nil ==> ni.Releasing.milliCpu == old(ni.Releasing.milliCpu) - old(relPart(storedTask(ni, ti), storedTask(ni, ti).AcceptedResource.milliCpu)) + relPart(ti, ti.AcceptedResource.milliCpu)
+//@   ensures [usedGpus] result == nil ==> ni.Used.gpus == old(ni.Used.gpus) - old(nodeChargedGpus(storedTask(ni, ti))) + nodeChargedGpus(ti)
+//@   ensures [idleGpus] result == nil && old(storedTask(ni, ti).ResourceReceivedType) != "Fraction" && ti.ResourceReceivedType != "Fraction" ==> ni.Idle.gpus == old(ni.Idle.gpus) + old(idlePart(storedTask(ni, ti), nodeChargedGpus(storedTask(ni, ti)))) - idlePart(ti, nodeChargedGpus(ti))
+//@   ensures nodeWF(ni) && podsWF(ni) && taskWF(ti)
 //@ end
